@@ -880,6 +880,58 @@ func TestC07_saga_stop_rule(t *testing.T) {
 				t.Fatalf("%s: stopped after %d epochs at %v; the previous epoch's iterate was %v: relative change %g exceeds epsilon*gamma = %g", c.Desc(), epochs+1, xr, prev, md/mx, eps*gamma)
 			}
 			c.Class("converged: stop rule verified")
+			// the regulariser asked for is the one that was applied: at a point where SAGA's own
+			// (tight) step rule holds, the proximal-gradient fixed-point residual of the objective
+			// (1/n) [sum_i f_i(x) + lambda R(x)] is small
+			if eps <= 1e-6 {
+				g := make([]float64, d)
+				for i := 0; i < n; i++ {
+					r := -y[i]
+					for j := 0; j < d; j++ {
+						r += z[i][j] * xr[j]
+					}
+					for j := 0; j < d; j++ {
+						g[j] += r * z[i][j] / float64(n)
+					}
+				}
+				w := make([]float64, d)
+				for j := range w {
+					w[j] = xr[j] - gamma*g[j]
+				}
+				tau := gamma * regv / float64(n)
+				px := make([]float64, d)
+				switch reg {
+				case "none":
+					copy(px, w)
+				case "l1":
+					for j := range w {
+						switch {
+						case w[j] > tau:
+							px[j] = w[j] - tau
+						case w[j] < -tau:
+							px[j] = w[j] + tau
+						}
+					}
+				case "l2":
+					if nw := norm(w); nw > tau {
+						for j := range w {
+							px[j] = w[j] * (1 - tau/nw)
+						}
+					}
+				case "tikhonov":
+					for j := range w {
+						px[j] = w[j] / (1 + tau)
+					}
+				}
+				res := 0.0
+				for j := range px {
+					res = math.Max(res, math.Abs(xr[j]-px[j])/gamma)
+				}
+				if res > 1e-3*(1+norm(g)+regv*norm(xr)/float64(n)) {
+					t.Fatalf("%s: stopped by its own rule at %v, but that point is not a fixed point of the proximal gradient step for the requested regularisation (%s, lambda=%v): residual %g", c.Desc(), xr, reg, regv, res)
+				}
+				c.Class("fixed point of the regularised problem verified")
+			}
 		} else if useHook {
 			c.Class("iteration cap reached")
 		}
